@@ -288,6 +288,11 @@ impl TransactionContext {
         self.handle.read().can_commit()
     }
 
+    /// Whether the transaction is still in progress (it is not once VACUUM has aborted it).
+    pub(crate) fn is_active(&self) -> bool {
+        self.handle.read().is_active()
+    }
+
     /// Commits the transaction: log commit, commit handle, end.
     pub(crate) fn commit_transaction(&self) -> RuntimeResult<()> {
         let mut h = self.handle.write();
